@@ -117,6 +117,11 @@ func toX(e *yang.Entry, parent *model.XNode, budget *int, depth int) *model.XNod
 	}
 	x := &model.XNode{Name: e.Name, Kind: XKind(e), Config: tri(e.Config), Mandatory: tri(e.Mandatory), Units: e.Units, Desc: e.Description, Key: e.Key, Parent: parent}
 	x.Default = append([]string(nil), e.Default...)
+	for _, st := range e.Exts {
+		if st != nil {
+			x.Exts = append(x.Exts, st.Argument)
+		}
+	}
 	if ns := e.Namespace(); ns != nil {
 		x.NSMod = ns.Name
 	}
